@@ -93,10 +93,10 @@ def container_case(draw, tier="quick"):
             if mem is not None and draw(st.integers(0, 5)) == 0:
                 # the fixed memory figure given as a numpy scalar instead of a Python number (same value)
                 import numpy as _np
-                kinds = ["np.float64", "np.float32"] + (["np.int64", "np.int32"] if float(mem) == int(mem) else [])
+                # (64-bit kinds only: a float32 figure makes numpy compare `usage > allocation` in single precision, so that
+                # 0.10000000149 > 0.1 is False - an artefact of the argument type, not of the memory model)
+                kinds = ["np.float64"] + (["np.int64"] if float(mem) == int(mem) else [])
                 sgd["memtype"] = draw(st.sampled_from(kinds))
-                if sgd["memtype"] == "np.float32":
-                    mem = sgd["mem"] = float(_np.float32(mem))
             segs.append(sgd)
             levels.append(mem if mem is not None else read)
             if mem is None and read > 0:
